@@ -154,13 +154,11 @@ class C15(World):
         self.in_mutation_probe = True
         try:
             k = 1 + self.ch.pick("torn.prefix", len(data) - 1)
-            root = self.fs.root.clone()
-            saved = self.fs.root
-            self.fs.root = root
-            try:
-                n2 = self.fs.lookup(path)
-            finally:
-                self.fs.root = saved
+            idmap = {}
+            root = self.fs.root.clone(idmap)
+            n2 = idmap.get(id(node))
+            if n2 is None:
+                return              # the file is no longer linked under /simfs (unlinked while open)
             if pos > len(n2.data):
                 n2.data.extend(b"\0" * (pos - len(n2.data)))
             n2.data[pos:pos + k] = data[:k]
